@@ -49,7 +49,13 @@ package handlers
 //@ func (*ServerHandler).handleUserCommand
 //@   requires [args-nonempty] len(args) >= 1
 //@   requires [argc-is-len] argc == len(args)
+// A health session can run nothing but the health command: the handler's
+// command callback is handleHealthCommand, which calls nothing but the
+// message senders, the ack handling and the shutdown.
+//@ func NewHealthHandler
+//@   ensures [health-callback] result != nil && funcIs(result.handleCommandCb, "handleHealthCommand")
 //@ func (*HealthHandler).handleHealthCommand
+//@   calls-only (*baseHandler).send, (*baseHandler).handleAckCommand, (*baseHandler).shutdown, io/dlog.(*DLog)
 //@   requires [args-nonempty] len(args) >= 1
 //@   requires [argc-is-len] argc == len(args)
 //@ func (*readCommand).Start
